@@ -8,6 +8,8 @@
 //!          | 4 rows                      (Kill: rows of a copy of the store files taken while open)
 //!          | 5 ...as 1...                (Alloc whose reply is lost)
 //!          | 6 ...as 1...                (Alloc while another connection holds the store's write lock)
+//!          | 7 k                         (C18, last event: the same events run again WITHOUT the restarts give a
+//!                                         different address / refusal at the k-th allocation; 0: the same throughout)
 //!
 //! The real code is `erbium::dhcp::pool::Pool::allocate_address` (via 0) or
 //! `erbium::dhcp::handle_pkt` with a DISCOVER (via 1) / REQUEST (via 2) packet.
@@ -63,6 +65,8 @@ pub struct World {
     /// what the implementation did, for the adaptive generator
     pub granted: Vec<(Vec<u8>, u32, u64)>, // (client, ip, secs) newest last
     pub last_secs: u64,
+    /// the answer of every allocation so far: the address, or the refusal code
+    pub answers: Vec<Result<u32, u64>>,
 }
 
 #[allow(clippy::type_complexity)]
@@ -83,7 +87,7 @@ static COUNTER: std::sync::atomic::AtomicU64 = std::sync::atomic::AtomicU64::new
 impl World {
     pub fn new_mem() -> World {
         let p = pool::Pool::new_in_memory().expect("open in-memory store");
-        World { path: std::path::PathBuf::new(), pool: Some(p), shift: 0, granted: vec![], last_secs: 300 }
+        World { path: std::path::PathBuf::new(), pool: Some(p), shift: 0, granted: vec![], last_secs: 300, answers: vec![] }
     }
 
     pub fn new() -> World {
@@ -92,7 +96,7 @@ impl World {
         let path = std::path::PathBuf::from(format!("{}/verif-pool-{}-{}.sqlite", dir, std::process::id(), k));
         let _ = std::fs::remove_file(&path);
         let p = pool::Pool::verif_open(path.to_str().unwrap()).expect("open store");
-        World { path, pool: Some(p), shift: 0, granted: vec![], last_secs: 300 }
+        World { path, pool: Some(p), shift: 0, granted: vec![], last_secs: 300, answers: vec![] }
     }
 
     fn rows(&mut self, t: &mut Toks) {
@@ -259,6 +263,7 @@ impl World {
                     }
                 };
                 let t_after = wall();
+                self.answers.push(ans.map(|(ip, _, _)| ip));
                 if let Some(c) = blocker {
                     c.execute_batch("ROLLBACK").expect("release the write lock");
                     drop(c);
@@ -708,14 +713,16 @@ impl Gen {
     }
 }
 
-pub fn run_history(r: &mut Rng, profile: Profile, thorough: bool, kill_pct: u64, stats: &mut Stats) -> Toks {
+pub fn run_history(r: &mut Rng, profile: Profile, thorough: bool, kill_pct: u64, transparency: bool, stats: &mut Stats) -> Toks {
     let mut g = Gen::new(r, profile, thorough);
     g.kill_pct = kill_pct;
     let mut w = World::new();
     let mut body = Toks::new();
     let mut n = 0u64;
+    let mut evs = vec![];
     while let Some(ev) = g.next(r, &w) {
         w.exec(&ev, &mut body, stats);
+        evs.push(ev);
         n += 1;
     }
     stats.bump(match profile {
@@ -725,10 +732,7 @@ pub fn run_history(r: &mut Rng, profile: Profile, thorough: bool, kill_pct: u64,
         Profile::Exhaust => "profile.exhaust",
     });
     stats.add("events", n);
-    let mut t = Toks::new();
-    t.n(n);
-    t.append(&body);
-    t
+    finish(&evs, &w, body, transparency, stats)
 }
 
 // ------------------------------------------------------------------ replay
@@ -813,6 +817,9 @@ pub fn parse_case(toks: &[u64]) -> Option<Vec<Ev>> {
                 c.skip_rows()?;
                 evs.push(Ev::Kill);
             }
+            7 => {
+                c.n()?; // recomputed on replay
+            }
             _ => return None,
         }
     }
@@ -826,10 +833,62 @@ pub fn replay_case(toks: &[u64], stats: &mut Stats) -> Option<Toks> {
     for ev in &evs {
         w.exec(ev, &mut body, stats);
     }
+    // a case that ended in the restart-transparency event gets it again
+    let with7 = toks.first().map(|n| *n as usize == evs.len() + 1).unwrap_or(false);
+    Some(finish(&evs, &w, body, with7, stats))
+}
+
+fn answers_of(evs: &[Ev], with_restarts: bool) -> Vec<Result<u32, u64>> {
+    let mut w = World::new();
+    let mut scratch = Toks::new();
+    let mut st = Stats::default();
+    for ev in evs {
+        match ev {
+            Ev::Kill => {}
+            Ev::Restart if !with_restarts => {}
+            _ => w.exec(ev, &mut scratch, &mut st),
+        }
+    }
+    w.answers.clone()
+}
+
+/// C18, restart transparency: 1-based index of the first allocation that is answered differently (another
+/// address, a refusal instead of an address or the other way round) when the same events run on a store that is
+/// never closed; 0 when every answer is the same.  The clock is the wall clock in both runs, so a lease that
+/// ends on a second boundary can make two runs differ: a difference counts only if it shows three times in a
+/// row, each time with both runs done afresh.
+pub fn restart_difference(evs: &[Ev], first: &[Result<u32, u64>]) -> u64 {
+    if !evs.iter().any(|e| matches!(e, Ev::Restart)) {
+        return 0;
+    }
+    let mut interrupted = first.to_vec();
+    let mut k = 0;
+    for attempt in 0..3 {
+        if attempt > 0 {
+            interrupted = answers_of(evs, true);
+        }
+        let plain = answers_of(evs, false);
+        match (0..interrupted.len().max(plain.len())).find(|&i| interrupted.get(i) != plain.get(i)) {
+            None => return 0,
+            Some(i) => k = i as u64 + 1,
+        }
+    }
+    k
+}
+
+fn finish(evs: &[Ev], w: &World, body: Toks, transparency: bool, stats: &mut Stats) -> Toks {
     let mut t = Toks::new();
-    t.n(evs.len() as u64);
-    t.append(&body);
-    Some(t)
+    if transparency {
+        let k = restart_difference(evs, &w.answers);
+        stats.bump(if k == 0 { "restart-transparency.same" } else { "restart-transparency.differs" });
+        t.n(evs.len() as u64 + 1);
+        t.append(&body);
+        t.n(7).n(k);
+    } else {
+        t.n(evs.len() as u64);
+        t.append(&body);
+    }
+    t
 }
 
 /// The F21 witness as a fixed history (always run first): a client holding two
@@ -988,9 +1047,7 @@ pub fn run(which: &str, args: &Args, out: &mut dyn Write) -> Stats {
         for ev in &evs {
             w.exec(ev, &mut body, &mut stats);
         }
-        let mut t = Toks::new();
-        t.n(evs.len() as u64);
-        t.append(&body);
+        let t = finish(&evs, &w, body, which == "C18", &mut stats);
         writeln!(out, "{}", t.0).unwrap();
         stats.bump("fixed-history");
     }
@@ -1022,7 +1079,7 @@ pub fn run(which: &str, args: &Args, out: &mut dyn Write) -> Stats {
             }
             k -= *w;
         }
-        let t = run_history(&mut r, profile, thorough, if which == "C18" { 12 } else { 3 }, &mut stats);
+        let t = run_history(&mut r, profile, thorough, if which == "C18" { 12 } else { 3 }, which == "C18", &mut stats);
         writeln!(out, "{}", t.0).unwrap();
     }
     stats
